@@ -114,6 +114,16 @@ fn literal_universe(ctx: &Ctx) -> Vec<String> {
         set.insert(s.replace('-', "_"));
         set.insert(s);
     }
+    // order hazards (lexicographic vs integer order of the raw parts the macros emit)
+    for l in order_lists() {
+        if ctx.quick() && l.len() == 3 && l[0] != "zaaaa" && l[0] != "1zzz" {
+            continue;
+        }
+        let j = l.join("-");
+        set.insert(format!("en-{}", j));
+        set.insert(format!("und-Latn-US-{}-u-ca-buddhist", j));
+        set.insert(format!("en-t-de-{}", j));
+    }
     // single tokens (subtag macros): the full class alphabet and the valid exemplars
     for t in sigma_full(ctx.seed).into_iter().chain(super::subtags::valid_subtags()) {
         if let Ok(s) = String::from_utf8(t) {
